@@ -1,37 +1,50 @@
 #!/usr/bin/env python3
 """False-alarm measurement: applies every behaviour-preserving refactoring under <dir> (default /verif/seeded/refactor)
-to /repo, runs every registered quick check in-process without writing evidence, reverts, and records every check that
-did not exit 0.  Writes <dir>/matrix.json.  /repo must be clean."""
-import json, os, subprocess, sys, glob, time
+through the in-memory overlay (the /repo working tree is not touched; the diff applier is verified against `git apply`),
+runs every registered quick check without writing evidence, and records every check that did not exit 0.
+Writes <dir>/matrix.json.  usage: refactor_matrix.py [dir] [jobs]"""
+import json, os, sys, glob
+from multiprocessing import Pool
 sys.path.insert(0, '/verif')
-from kverif.__main__ import run_property
-from kverif import report
 
 root = sys.argv[1] if len(sys.argv) > 1 else '/verif/seeded/refactor'
+jobs = int(sys.argv[2]) if len(sys.argv) > 2 else 12
 man = json.load(open('/verif/MANIFEST.json'))
 props = [c['property_id'] for c in man['checks']]
-assert subprocess.run(['git', '-C', '/repo', 'diff', '--quiet']).returncode == 0, '/repo is dirty'
-matrix = {}
-for d in sorted(glob.glob(os.path.join(root, 'C*-r*'))):
+
+
+def one(d):
+    from kverif.selftest import apply_unified_diff
+    from kverif.source import Repo
+    from kverif.__main__ import run_property
+    from kverif import report
+    os.environ['KVERIF_NONORM'] = '1'
+    r = Repo('/repo')
+    del os.environ['KVERIF_NONORM']
+    texts = {p: m.text for p, m in r.modules.items()}
     rid = os.path.basename(d)
-    r = subprocess.run(['git', '-C', '/repo', 'apply', os.path.join(d, 'patch.diff')], capture_output=True, text=True)
-    if r.returncode != 0:
-        matrix[rid] = {'error': 'patch does not apply: ' + r.stderr[:200]}
-        print(rid, 'DOES NOT APPLY')
-        continue
-    try:
-        row = {}
-        for p in props:
-            code, ctx = run_property(p, 'quick', None, write=False, quiet=True)
-            if code != 0:
-                known = report.load_known()
-                viol = [f'{f.rule} {f.loc()} {f.what[:140]}' for f in ctx.by(report.VIOLATION) if not report.is_known(f, p, known)]
-                und = [f'{f.rule} {f.loc()} {f.what[:140]}' for f in ctx.by(report.UNDECIDED)]
-                row[p] = {'exit': code, 'violations': viol, 'undecided': und}
-        matrix[rid] = row
-    finally:
-        subprocess.run(['git', '-C', '/repo', 'checkout', '--', '.'], check=True)
-    print(rid, 'silent' if not row else json.dumps(row)[:600], flush=True)
-json.dump(matrix, open(os.path.join(root, 'matrix.json'), 'w'), indent=1)
-n = len(matrix); noisy = sum(1 for v in matrix.values() if v)
-print(f'{n} refactorings: {n - noisy} silent in all {len(props)} checks, {noisy} raised an alarm or an analysis error')
+    new = apply_unified_diff(texts, open(os.path.join(d, 'patch.diff')).read())
+    if new is None:
+        return rid, {'error': 'patch does not apply'}
+    row = {}
+    for p in props:
+        code, ctx = run_property(p, 'quick', '/repo', overlay=new, write=False, quiet=True)
+        if code != 0:
+            known = report.load_known()
+            viol = [f'{f.rule} {f.loc()} {f.what[:140]}' for f in ctx.by(report.VIOLATION) if not report.is_known(f, p, known)]
+            und = [f'{f.rule} {f.loc()} {f.what[:140]}' for f in ctx.by(report.UNDECIDED)]
+            row[p] = {'exit': code, 'violations': viol, 'undecided': und}
+    return rid, row
+
+
+if __name__ == '__main__':
+    dirs = sorted(glob.glob(os.path.join(root, 'C*-r*')))
+    matrix = {}
+    with Pool(jobs) as pool:
+        for rid, row in pool.imap_unordered(one, dirs):
+            matrix[rid] = row
+            print(rid, 'silent' if not row else json.dumps(row)[:600], flush=True)
+    json.dump(dict(sorted(matrix.items())), open(os.path.join(root, 'matrix.json'), 'w'), indent=1)
+    n = len(matrix)
+    noisy = sum(1 for v in matrix.values() if v)
+    print(f'{n} refactorings: {n - noisy} silent in all {len(props)} checks, {noisy} raised an alarm or an analysis error')
